@@ -42,20 +42,64 @@ def kind_spec(lean_term: str) -> str:
 
 
 _REG = None
+_REG_TOLERANT = None
+
+# from_string callable → kind, used only when the translator cannot identify an option's codec pair
+# (then the correspondence is reported as broken, but the Layer-C search must still be able to run)
+_FROM_KIND = {
+    "bool_from_string": "bool", "int_or_none_from_string": "intOrNone", "float_or_none_from_string": "floatOrNone",
+    "string_or_none": "strOrNone", "default_to_string": "strRaw", "list_without_none_from_string": "listJoin",
+    "_drm_selection_from_string": "drmSelection", "unquoted_url_or_none_from_string": "quotedUrl",
+    "ast_from_string": "astDateTime", "datetime_or_none_from_string": "dtOrNone",
+    "_errors_from_string": "errorList",
+}
 
 
-def registry():
-    """(rows, live DashOption objects) in registry order; rows carry `kind` as driver spec"""
-    global _REG
-    if _REG is None:
-        from dashlive.server.options.repository import OptionsRepository
-        d = gen_options.dump()
-        rows = d["rows"]
-        for r in rows:
-            r["kspec"] = kind_spec(r["kind"])
-            r["kbase"] = r["kspec"].split(":")[0]
-        _REG = (rows, list(OptionsRepository.get_dash_options()), d)
-    return _REG
+def _tolerant_rows():
+    from dashlive.server.options.repository import OptionsRepository
+    rows = []
+    defaults = OptionsRepository.get_default_options()
+    for opt in OptionsRepository.get_dash_options():
+        try:
+            kspec = kind_spec(gen_options.kind_of(opt))
+        except Exception:
+            try:
+                f = gen_options.callable_id(opt.from_string)
+                if f[0] in ("int_or_default", "positive_int_or_default"):
+                    kspec = ("intOrDefault" if f[0] == "int_or_default" else "posIntOrDefault") + f":{f[1]}"
+                else:
+                    kspec = _FROM_KIND[f[0]]
+            except Exception:
+                cont = defaults[opt.prefix] if opt.prefix else defaults
+                dv = cont[opt.full_name]
+                kspec = ("bool" if isinstance(dv, bool) else "intOrNone" if isinstance(dv, int) else
+                         "listJoin" if isinstance(dv, list) else "strOrNone")
+        rows.append({"cgi": opt.cgi_name, "short": opt.short_name, "pfx": opt.prefix, "full": opt.full_name,
+                     "usage": int(opt.usage), "kind": "?", "dflt": gen_options.default_text(opt),
+                     "choices": gen_options.choice_values(opt), "kspec": kspec, "kbase": kspec.split(":")[0]})
+    return rows
+
+
+def registry(strict: bool = True):
+    """(rows, live DashOption objects, dump) in registry order; rows carry `kind` as driver spec.
+    `strict=False`: never raises – kinds the translator cannot identify are guessed (search only)."""
+    global _REG, _REG_TOLERANT
+    from dashlive.server.options.repository import OptionsRepository
+    if strict:
+        if _REG is None:
+            d = gen_options.dump()
+            rows = d["rows"]
+            for r in rows:
+                r["kspec"] = kind_spec(r["kind"])
+                r["kbase"] = r["kspec"].split(":")[0]
+            _REG = (rows, list(OptionsRepository.get_dash_options()), d)
+        return _REG
+    if _REG_TOLERANT is None:
+        try:
+            _REG_TOLERANT = registry(True)
+        except Exception:
+            _REG_TOLERANT = (_tolerant_rows(), list(OptionsRepository.get_dash_options()), None)
+    return _REG_TOLERANT
 
 
 # ------------------------------------------------------------------ valspec
